@@ -28,6 +28,7 @@ BATCH_TIMEOUT = 20
 LINE_TIMEOUT = 5
 SAMPLE_PER_CLASS = {"quick": 64, "thorough": 400}
 CONFIRM_CAP = 400
+ABNORMAL_CAP = 24                                 # stop isolating once this many lines crash / hang on their own
 TRACE_BATCHES = {"quick": 6, "thorough": 40}
 GCC = ["gcc", "-E", "-P", "-x", "c++", "-std=gnu++20", "-w"]
 
@@ -161,6 +162,7 @@ class Replayer:
         self.ctx, self.recs, self.work = ctx, recs, ctx.tmp
         self.nfile = 0
         self.nruns = 0
+        self.abnormal = 0          # isolated lines that crash / hang / exit non-zero
 
     def path(self, tag):
         self.nfile += 1
@@ -215,10 +217,14 @@ class Replayer:
                     res[(cid, k)] = ("ok" if got == expected(self.recs[cid]["o"][k]) else "diff", got)
             return res
         nlines = sum(len(keep) for _, keep in items)
-        if nlines <= 1:
+        if nlines <= 1 or self.abnormal >= ABNORMAL_CAP:
+            # isolated -- or enough lines isolated already: the rest of an abnormal batch is reported whole
+            tag = st if nlines <= 1 else "unresolved (batch ended with %s)" % st
             for cid, keep in items:
                 for k in keep:
-                    res[(cid, k)] = (st, "signal %s" % r.signal if st == "crash" else st)
+                    res[(cid, k)] = (tag, "signal %s" % r.signal if st == "crash" and nlines <= 1 else tag)
+            if nlines <= 1:
+                self.abnormal += 1
             return res
         if len(items) > 1:
             n = max(1, (len(items) + 7) // 8)
@@ -511,7 +517,7 @@ def run_check(ctx):
         results.update(sub)
     suspects = sorted(key for key, (st, _) in results.items() if st != "ok")
     confirmed = {}
-    todo = suspects[:CONFIRM_CAP]
+    todo = [key for key in suspects if results[key][0] == "diff"][:CONFIRM_CAP]
     for key, r in zip(todo, run.pmap(lambda ck: rp.alone(*ck), todo)):
         confirmed[key] = r
     n_viol = 0
@@ -519,7 +525,7 @@ def run_check(ctx):
         st, got = confirmed.get(key, results[key])
         if st == "ok":
             continue            # the line was the victim of a neighbour in its batch
-        if st in ("hang",):     # timing verdicts are reported only if they repeat
+        if st == "hang" and n_viol < ABNORMAL_CAP:     # timing verdicts are reported only if they repeat
             st, got = rp.alone(*key)
             if st == "ok":
                 continue
@@ -620,3 +626,34 @@ def run_check(ctx):
         "gcc -E -P -x c++ -std=gnu++20 is a conforming preprocessor on the enumerated grammar (it validates the spec on every line)",
         "string literals produced by # are compared with the white space the renderer writes between source tokens (one space)",
     ]
+
+
+def replay(path):
+    """./check C08 --replay <violation file>: run the saved program again through parse_file -E and gcc -E."""
+    from ..common import scratch
+    import shutil
+    d = json.load(open(path))
+    case = d.get("case", d)
+    if "program" not in case:
+        print(json.dumps(d, indent=1))
+        return 0
+    build.ensure("hooked")
+    work = scratch("C08-replay")
+    try:
+        src = os.path.join(work, "replay.c")
+        with open(src, "w") as f:
+            f.write("\n".join(case["program"]) + "\n")
+        flags = case.get("dflags") or []
+        r = run.run_tool("parse_file", ["-E"] + flags + ["replay.c"], cwd=work, timeout=LINE_TIMEOUT, monitor=False)
+        g = subprocess.run(GCC + flags + [src], stdout=subprocess.PIPE, stderr=subprocess.PIPE, text=True)
+        print("\n".join(case["program"]))
+        exp = case.get("expected", case.get("spec"))
+        print("spec       :", exp)
+        for name, out in (("gcc -E     ", g.stdout), ("parse_file ", "" if r.timed_out else r.stdout)):
+            obs = [v for o in observe(out).values() for v in o.values()]
+            print(name + ":", obs[0] if obs else None)
+        print("parse_file exit:", "timeout" if r.timed_out else r.rc)
+        obs = [v for o in observe("" if r.timed_out else r.stdout).values() for v in o.values()]
+        return 0 if (obs and obs[0] == exp and r.rc == 0) else 1
+    finally:
+        shutil.rmtree(work, ignore_errors=True)
